@@ -44,7 +44,7 @@ GEN = []
 MODULES = ['TamocV.Props.C03', 'TamocV.Model.Lmp']
 RULE = ('states = (previous row, current row) pairs of real bent_plume_model simulations (random scenario: 100-2500 m, 0-6 '
         'particles gas/liquid/inert, jet or pure multiphase, any orientation, currents none/uniform/sheared with optional wa, '
-        'background concentrations none/some/all, biodegradation none/random/database, lag time on/off, s/D up to 3-400, '
+        'background concentrations none/some/all, stripping set-up in half of the scenarios with soluble particles (soluble particles list oxygen / nitrogen / CO2 or one of their own compounds with mole fraction exactly 0 while the water holds it; floor 15 % of the states), biodegradation none/random/database, lag time on/off, s/D up to 3-400, '
         'first and last stored row always included), unperturbed and randomly perturbed (element mass/salt/heat, momentum '
         'magnitude and direction incl. vertical, depth, arc length incl. ds=0, particle masses incl. zero, heats, ages, '
         'positions inside and outside the half-width, dissolved pool, tracers), each with random in/out-of-plume flags given '
@@ -69,6 +69,15 @@ def _scenario(ctx, i):
     npart = [0, 1, 2, 3, 4, 5, 6][i % 7] if i < 7 else r.randint(0, 6)
     mix = ['gas+inert', 'oil+inert', 'gas', 'oil', 'inert'][i % 5] if i < 10 else 'random'
     scn = scen_bpm.random_scenario(r, nparticles=npart, mix=mix)
+    if i % 2 == 1 and any(sp['kind'] != 'inert' for sp in scn['particles']):
+        # stripping set-up (seeded change C03-3): soluble particles list compounds with mole fraction EXACTLY 0 at the
+        # release while the water holds them (background at every depth, hence also in the dissolved pool)
+        zero = scen_bpm.add_zero_fraction(r, scn['particles'], n_extra=r.choice([1, 1, 2]))
+        H = scn['profile']['H']
+        for ch in zero:
+            c0 = 10 ** r.uniform(-4, -2)
+            scn['profile']['background'][ch] = [c0 * r.uniform(0.3, 1.), c0]
+        scn['zero_fraction'] = zero
     # LagElement.update leaves the k_bio of the LAST particle on the element: make a soluble particle the last
     # one in half of the scenarios so that the dissolved-pool biodegradation term is exercised
     sol = [j for j, sp in enumerate(scn['particles']) if sp['kind'] != 'inert']
@@ -80,7 +89,7 @@ def _scenario(ctx, i):
     return scn
 
 
-def _perturb(r, q, lay, q_prev, b, kinds):
+def _perturb(r, q, lay, q_prev, b, kinds, zero_slots=()):
     """random perturbation of the packed state (quantifier of C03); returns (q', tag)"""
     q = np.array(q, dtype=float)
     tags = []
@@ -139,8 +148,14 @@ def _perturb(r, q, lay, q_prev, b, kinds):
         if r.random() < 0.3:
             q[sl['t']] = q[sl['t']] * r.uniform(0., 3.) + r.choice([0., 20., 1e5])   # particle age (lag time, hydrate)
             tags.append('tp')
+    if zero_slots and r.random() < 0.8:
+        # compounds a particle lists with mole fraction 0 at the release: back to exactly zero mass, or a tiny negative
+        # mass that PlumeParticle.properties clips to zero (the solver overshoots about zero)
+        for j in zero_slots:
+            q[j] = r.choice([0., 0., -1e-12 * abs(q[0])])
+        tags.append('m0')
     a, e = lay['chems']
-    if e > a and r.random() < 0.6:
+    if e > a and r.random() < (0.2 if zero_slots else 0.6):
         q[a:e] = np.array([r.choice([0., q[j] * r.uniform(0., 10.), q[0] / 1000. * 10 ** r.uniform(-7, -3)]) for j in range(a, e)])
         tags.append('c')
     a, e = lay['tracers']
@@ -557,12 +572,13 @@ def eval_state(tam, bpm, prf, parts, q_prev, t_prev, q, t, flags, mode):
     unpack_ok = True
     for i, sl in enumerate(lay['particles']):
         a, e = sl['m']
-        unpack_ok = unpack_ok and np.array_equal(np.asarray(q1l.M_p[i]), q[a:e]) and float(q1l.H_p[i]) == float(q[sl['H']]) \
+        unpack_ok = unpack_ok and np.array_equal(np.asarray(q1l.M_p[i]), q[a:e], equal_nan=True) \
+            and np.array_equal(np.atleast_1d(q1l.H_p[i]), np.atleast_1d(q[sl['H']]), equal_nan=True) \
             and np.array_equal(np.asarray(q1l.X_p[i]), q[sl['X'][0]:sl['X'][1]], equal_nan=True)
     a, e = lay['chems']
-    unpack_ok = unpack_ok and np.array_equal(np.asarray(q1l.cpe), q[a:e])
+    unpack_ok = unpack_ok and np.array_equal(np.asarray(q1l.cpe), q[a:e], equal_nan=True)
     a, e = lay['tracers']
-    unpack_ok = unpack_ok and (e == a or np.array_equal(np.asarray(q1l.cte), q[a:e]))
+    unpack_ok = unpack_ok and (e == a or np.array_equal(np.asarray(q1l.cte), q[a:e], equal_nan=True))
     real = _real_snapshot(q0l, q1l, parts)
     ind = _independent(tam, prf, bpm, qp0, q, parts, lay)
     return {'q': q, 'q_prev': qp0, 'qp': qp, 'env': env, 'ps': ps, 'lay': lay, 'unpack_ok': bool(unpack_ok),
@@ -681,9 +697,13 @@ def run(ctx, lean_ok):
         if lay0['len'] != q_all.shape[1]:
             ctx.violation('layout-length', 'state vector length is not 11 + sum(nc_i+5) + nchems + ntracers',
                           {'scenario': scn, 'expected': lay0['len'], 'got': int(q_all.shape[1])})
-        for k in ks:
+        zero_slots = [j for sl in lay0['particles'] for j in range(sl['m'][0], sl['m'][1])
+                      if q_all[0, j] == 0. and sl['m'][1] - sl['m'][0] > 1] if scn.get('zero_fraction') else []
+        for k in ([0] if zero_slots else []) + ks:
             for j in range(pert_per):
-                q_prev, t_prev, q, t = q_all[k - 1], t_all[k - 1], q_all[k], t_all[k]
+                q_prev, t_prev, q, t = q_all[max(k - 1, 0)], t_all[max(k - 1, 0)], q_all[k], t_all[k]
+                if k == 0 and j > 0:
+                    break
                 if j == 0:
                     tag = 'none'
                     # the flags the simulation itself had at that row
@@ -692,7 +712,7 @@ def run(ctx, lean_ok):
                 else:
                     Vel = float(np.linalg.norm(q[3:6])) / q[0]
                     b_guess = math.sqrt(q[0] / (1030. * math.pi * q[6] * Vel)) if Vel > 0 else 0.5 * bpm.D
-                    q, tag = _perturb(r, q, lay0, q_prev, b_guess, kinds)
+                    q, tag = _perturb(r, q, lay0, q_prev, b_guess, kinds, zero_slots)
                     flags = [r.random() < 0.7 for _ in parts]
                     mode = r.choice(['stored', 'flag'])
                 case = _case(scn, k, q_prev, t_prev, q, t, flags, mode, tag)
@@ -714,6 +734,16 @@ def run(ctx, lean_ok):
                 ctx.count('mode=' + mode)
                 for p in res['ps']:
                     ctx.count(('soluble' if p['issoluble'] else 'inert') + ('-in' if p['integrate'] else '-out'))
+                zc = zd = False
+                for p in res['ps']:
+                    if p['issoluble'] and p['integrate'] and float(np.sum(p['m'])) > 0 and len(p['m']) == res['env']['nchems']:
+                        z = (np.asarray(p['m']) <= 0.) & (np.asarray(res['ind']['c_chems']) > 0.)
+                        zc = zc or bool(np.any(z & (np.asarray(p['beta']) != 0.)))      # uptake from the water is active
+                        zd = zd or bool(np.any(z & (np.asarray(p['beta']) == 0.)))      # used-up component, transfer switched off
+                if zc:
+                    ctx.count('zero-mass-component-taking-up-from-water')
+                if zd:
+                    ctx.count('zero-mass-component-used-up')
                 if res['env']['nchems'] > 0 and np.any(res['env']['k_bio'] != 0):
                     ctx.count('element-k_bio-nonzero')
                 elif any(p['issoluble'] and p['integrate'] and np.any(p['k_bio'] != 0) for p in res['ps']):
@@ -734,6 +764,8 @@ def run(ctx, lean_ok):
                'rejected: %r' % {k: v for k, v in ctx.hist.items() if k.startswith('state-rejected')})
     floors = {'soluble-in': 100, 'soluble-out': 30, 'inert-in': 50, 'inert-out': 15, 'element-k_bio-nonzero': 20, 'particles=0': 1,
               'particles=6': 1, 'mode=flag': 50, 'mode=stored': 50, 'alt-evaluation:remove': 30, 'alt-evaluation:reorder': 5}
+    floors['zero-mass-component-taking-up-from-water'] = int(math.ceil(0.15 * max(nstate_ok, 1)))
+    floors['zero-mass-component-used-up'] = 10
     short = {k: ctx.hist.get(k, 0) for k, v in floors.items() if ctx.hist.get(k, 0) < v}
     ctx.oblige('floor: every regime of the quantifier reached (%s)' % ', '.join('%s>=%d' % kv for kv in sorted(floors.items())),
                not short, 'below floor: %r' % short)
